@@ -148,6 +148,7 @@ func c14HugeMantissa(c *hx.Ctx, r *hx.RNG) {
 func c14Case(c *hx.Ctx, r *hx.RNG, idx int64) {
 	if idx%4000000 == 77 {
 		c14HugeMantissa(c, r)
+		releaseHuge()
 		return
 	}
 	if m := idx % 4000000; m == 13 || m == 45 { // (same shard, one after the other)
